@@ -997,6 +997,10 @@ def pick_z(
     if len(z_angle_inds) > 0:
         z_ind = angle_from_right[z_angle_inds[0]][-1]
         z = array_ops.project_to_plane(cent_coords[z_ind, :], y)
+        if np.linalg.norm(z) < array_ops.EPS:
+            # the atom lies on the y-axis: it has no direction orthogonal to
+            # `y` (its projection is round-off noise) and cannot define `z`
+            return None
         return z
     else:
         return None
